@@ -24,6 +24,33 @@ EXIT_OK, EXIT_VIOLATION, EXIT_INCONCLUSIVE = 0, 1, 2
 MAX_VIOLATION_LINES = 20
 
 
+class CaseTimeout(BaseException):
+    """raised by time_limit() inside a shard when one case exceeds its wall-clock allowance (inconclusive for
+    that case: it is dropped and counted, never judged)"""
+
+
+class time_limit:
+    """with time_limit(seconds): ...   — SIGALRM based, main thread of a shard process only"""
+
+    def __init__(self, seconds):
+        self.seconds = seconds
+
+    def _fire(self, signum, frame):
+        raise CaseTimeout()
+
+    def __enter__(self):
+        import signal
+        self._old = signal.signal(signal.SIGALRM, self._fire)
+        signal.setitimer(signal.ITIMER_REAL, self.seconds)
+        return self
+
+    def __exit__(self, et, ev, tb):
+        import signal
+        signal.setitimer(signal.ITIMER_REAL, 0)
+        signal.signal(signal.SIGALRM, self._old)
+        return False
+
+
 def case_hash(*parts):
     h = hashlib.sha256()
     for p in parts:
